@@ -105,6 +105,11 @@ def r2_construction(prog, rep: Report, im):
         if r_.get("$comprehension") and all(k_ in r_ for k_ in ("starts", "ends", "values")):
             # the three arrays are built by one unfiltered comprehension each over mapping.items(): aligned by construction
             starts_arr, ends_arr, vals_arr = [r_["starts"]], [r_["ends"]], [r_["values"]]
+    if not starts_arr and not ends_arr and not vals_arr:
+        # the intervals are not kept as three parallel arrays at all (one record per interval, a dict ...): another representation,
+        # which this clause does not read
+        rep.unrec("C16.R2", f, "recording", f"start / end / value of an interval are not recorded in three arrays ({apps or 'no append in the loop'})")
+        return
     rep.check("C16.R2", f, "recording", len(starts_arr) == 1 and len(ends_arr) == 1 and len(vals_arr) == 1,
               f"start -> {starts_arr}, end -> {ends_arr}, value -> {vals_arr} appended in the same iteration",
               f"start/end/value of an interval are not appended to three arrays in the same iteration: {apps}",
